@@ -84,7 +84,10 @@ ValM(D, name, var, depth) ==
                         e1 == IF negz THEN <<k1, Leaf(SK(f.ty.map[2]), IF SK(f.ty.map[2]) = "double" THEN <<128, 0, 0, 0, 0, 0, 0, 0>> ELSE <<128, 0, 0, 0>>)>>
                               ELSE <<k1, ValT(D, f.ty.map[2], 2, depth + 1)>>
                         e2 == <<k2, ValT(D, f.ty.map[2], 1, depth + 1)>>
-                    IN <<[tag |-> f.tag, x |-> [k |-> "pmap", kvs |-> IF var = 1 THEN <<e1, e2>> ELSE <<e2>>]]>>)
+                        \* the second value repeats the FIRST key of the first value with a different value: in a ++ b the
+                        \* later entry must replace the earlier one
+                        e3 == <<k1, ValT(D, f.ty.map[2], 1, depth + 1)>>
+                    IN <<[tag |-> f.tag, x |-> [k |-> "pmap", kvs |-> IF var = 1 THEN <<e1, e2>> ELSE <<e3>>]]>>)
            ELSE IF f.label = "required" THEN
               <<[tag |-> f.tag, x |-> ValT(D, f.ty, IF var = 0 THEN 2 ELSE v, depth + 1)]>>
            ELSE IF k = "msg" THEN
